@@ -22,7 +22,7 @@ PROP = 'C03'
 LEVEL = 'proof'
 PROPS_MODULES = ['RTV.Props.C03', 'RTV.Props.C03Frac', 'RTV.Props.C03Extract', 'RTV.Props.C03ExtractBounded',
                  'RTV.Props.C03ExtractPlain']
-GEN = ['nummaps', 'chartables', 'numfrac', 'numregex', 'regexes']
+GEN = ['nummaps', 'chartables', 'numfrac', 'numregex', 'regexes', 'numfollow']
 REQUIRED_THEOREMS = ['digital_exact', 'digital_exact_neg', 'format_canonical', 'number_literal', 'percent_literal',
                      'digital_round16', 'separators_distinct', 'comma_dot_cultures', 'progressive_rounding_witness',
                      'digital_exact_literal', 'digital_exact_grouped', 'digital_exact_decimal',
@@ -38,14 +38,17 @@ REQUIRED_THEOREMS = ['digital_exact', 'digital_exact_neg', 'format_canonical', '
                      'grouped_literal_extracted', 'grouped_decimal_literal_extracted', 'grouped_literal_sweep',
                      'de_plain_decimal_split_witness', 'nl_plain_decimal_split_witness', 'de_negative_grouped_witness',
                      'esmx_two_groups_split_witness', 'plain_bounded', 'decimal_bounded', 'decimal_bounded_signed',
-                     'plain_shapes', 'decimal_shapes', 'other_shapes', 'plain_literal_extracted', 'decimal_literal_extracted']
+                     'plain_shapes', 'decimal_shapes', 'other_shapes', 'plain_literal_extracted', 'decimal_literal_extracted',
+                     # the carrier contract of the extraction theorems (follower words) and the literal 0
+                     'post_b_excluded', 'post_k_excluded', 'post_dozen_excluded', 'post_ordinary_ok',
+                     'family_ignores_follower_witness', 'bounded_carrier_admissible', 'number_literal_zero']
 RULE = ('unit: decimal ops on boundary coefficients (10^k, 10^k±1, ...5 ties) + seeded operands, p in {15, 28}; '
         '_get_digital_value / format on every literal shape (plain, grouped, decimal, grouped+decimal, ± sign) x '
         'magnitudes 0..10^15 (10^k, 10^k±1, 15- and 16-digit, 10^-6, 10^-7) x 10 configurations + seeded junk '
         'strings; pipeline: the same literals alone and in a carrier sentence through recognize_number and '
         'recognize_percentage; non-trivial = distinct (culture, query) with at least one entity')
 ASSUMPTIONS = ['CPython decimal (libmpdec) is compared with the model on every run; exponent limits Emax/Emin are not modelled',
-               'extraction of digit literals: modelled for the digit family of the seven BaseNumberParser extractor lists (RTV.NumExtract, regenerated regexes, backtracking matcher RTV.Re assumed to order matches as the regex module does: compared on every run); word / suffix / CJK regexes: pipeline correspondence only',
+               'extraction of digit literals: modelled for the digit family of the seven BaseNumberParser extractor lists (RTV.NumExtract, regenerated regexes, backtracking matcher RTV.Re assumed to order matches as the regex module does: compared on every run); the extraction theorems are statements about that family on carriers whose right part does not begin with a follower word (RTV/Gen/NumFollow.lean); that the other entries of the real list add nothing on such carriers is sampled (numextractcorr follower / bounded ties), not proved; word / suffix / CJK regexes: pipeline correspondence only',
                'str.isdigit / Decimal(chr) tables exported from the running CPython (RTV/Gen/NumDigits.lean)']
 
 # marks a culture writes: (grouping, decimal) — the long-format table of recognizers_number/culture.py
@@ -375,7 +378,13 @@ def pipeline(ctx, lits):
             # a percentage failure that merely repeats the number model's failure on the same literal carries the
             # number signature (one defect, one signature)
             k2 = 'number' if (kind == 'percentage' and number_verdict.get(key) == bad) else kind
-            sig = '%s:%s:%s%s:%s' % (k2, cu, lit['shape'], '-neg' if lit['neg'] else '', bad)
+            shape = lit['shape']
+            if (k2 == 'percentage' and cu == 'ja-jp' and not lit['neg'] and shape in ('grouped', 'groupedDecimal')
+                    and len(lit['int']) <= 6):
+                # the recorded ja-jp findings `percentage:ja-jp:grouped[Decimal]:span` are about TWO OR MORE group marks
+                # ('1,000,000%' -> '000,000%'); one group mark ('1,000%') is fine today and is demanded (recorded nowhere)
+                shape += '-one-mark'
+            sig = '%s:%s:%s%s:%s' % (k2, cu, shape, '-neg' if lit['neg'] else '', bad)
             ctx.report('property', sig, '%s(%r, %s): %s' % (kind, q, cu, detail), failing_input=fi, property_fails=True)
             continue
         if sig_digits(lit) <= 15:
